@@ -346,6 +346,9 @@ index-read-conc store-kind-conc argcount-conc argkind-conc nil-deref-conc nil-fu
 panic-method-conc panic-three-conc unexp-return unexp-return-local unexp-arg unexp-set unexp-conc panic-three undef-root-3 local-root-3 local-root-3-if""".split()
 
 
+BENIGN_CODES = ["grow-range", "grow-range-map", "long-for", "nested-for", "range-in-for"]
+
+
 @prop("C09")
 def c09(run):
     """Fault containment: the Exec trace specification with rule bodies that contain a real fault of every class at
@@ -403,6 +406,23 @@ def c09(run):
                                      "burst": rng.random() < 0.3, "rules": decl, "calls": [call, healthy, dict(call)], "fault": code})
     if quick and len(sessions) > 3000:
         sessions = rng.sample(sessions, 3000)
+    # "never hang" also for rules that do nothing wrong: legal loops whose body lengthens the collection they range over,
+    # long and nested loops - in a healthy rule of every execution model
+    for m, rs in sorted(by_method.items()):
+        for code in BENIGN_CODES:
+            for _ in range(1 if quick else 6):
+                r = rng.choice(rs)
+                if not r["rules"]:
+                    continue
+                tgt = rng.choice(["engine", "pool"])
+                beh = {n: rng.choice(["ok", "ret"]) for n, b in r["beh"]}
+                carrier = rng.choice(r["rules"])["name"]
+                decl = [{"name": ru["name"], "sal": ru["sal"], "tpl": ("N:" + code) if ru["name"] == carrier else "A"} for ru in r["rules"]]
+                call = {"method": r["method"], "via": "direct", "b": r["b"], "names": r["names"], "n": r["n"], "m": r["m"],
+                        "dag": r["dag"], "beh": beh, "tagset": []}
+                sid += 1
+                sessions.append({"id": sid, "target": tgt, "gated": False, "burst": False, "rules": decl,
+                                 "calls": [call, dict(call), dict(call)], "fault": "benign:" + code})
     ns, nrej = X.run_and_validate(run, sessions, "faults", keys=True, timeouts_reproduce=True)
     run.cov["evaluations"] = ns
     run.cov["fault_classes_x_positions"] = len(FAULT_CODES)
